@@ -252,7 +252,7 @@ class PyReader:
                         return base[k]
                     raise Raised("IndexError", getattr(n, "lineno", 0))
             self.fail(n, "subscript")
-        if isinstance(n, ast.ListComp) and len(n.generators) == 1 and not n.generators[0].ifs:
+        if isinstance(n, (ast.ListComp, ast.GeneratorExp)) and len(n.generators) == 1 and not n.generators[0].ifs:
             g = n.generators[0]
             it = self.ev(g.iter, env, fns)
             if not isinstance(it, list):
@@ -320,6 +320,13 @@ class PyReader:
             return list(range(*args))
         if name in ("sympify", "simplify", "S") and args:
             return args[0]
+        if name == "Add":
+            acc = num(0)
+            for a in args:
+                acc = op("add", acc, self.scalar(a, n))
+            return acc
+        if name == "Eq" and len(args) == 2:
+            return ("eq", self.scalar(args[0], n), self.scalar(args[1], n))
         if name == "Vector" and args:
             comps = args[0]
             sysv = args[1] if len(args) > 1 else kwargs.get("coordinate_system", Sys("default", "CARTESIAN"))
